@@ -108,7 +108,8 @@ def gen_schema(rng, want=None, types_upper=None, profile=None):
     '''
     profile = profile or {}
     shapes_all = ['one_one', 'one_many', 'reflexive', 'assoc_class', 'subsuper', 'shared_ref',
-                  'multi_key', 'reflexive_many', 'chain_key', 'alt_key', 'multi_key_twice', 'reflexive_twice']
+                  'multi_key', 'reflexive_many', 'chain_key', 'alt_key', 'multi_key_twice', 'reflexive_twice',
+                  'assoc_class_reflexive']
     shapes = [s for s in shapes_all if rng.random() < profile.get('p_shape', 0.45)]
     for w in (want or []):
         if w not in shapes:
@@ -137,7 +138,7 @@ def gen_schema(rng, want=None, types_upper=None, profile=None):
         if with_id:
             attrs.append(['Id', T(id_type)])
         pool = [['Nm', 'string'], ['Val', 'integer'], ['Flag', 'boolean'], ['Amt', 'real'], ['Tag', 'string'],
-                ['Oid', 'unique_id']]
+                ['Oid', 'unique_id'], ['_Aux', 'string'], ['N_2', 'integer']]
         n = rng.randint(0, profile.get('max_plain', 3))
         for a in rng.sample(pool, n):
             attrs.append([a[0], T(a[1])])
@@ -234,6 +235,14 @@ def gen_schema(rng, want=None, types_upper=None, profile=None):
             assoc(l, ['B_Id'], b, ['Id'], m1, c1, False, r=r)
             if rng.random() < 0.5:
                 uniques.append({'kind': l['kind'], 'name': 'I2', 'attrs': ['A_Id', 'B_Id']})
+        elif shape == 'assoc_class_reflexive':
+            # association class between a class and itself: two formalisations of one number with crossing phrases
+            a = mk_class(id_type=idt)
+            l = mk_class(extra=[['One_Id', idt], ['Other_Id', idt]], with_id=bools(), prefix='L')
+            r = rel()
+            m1, c1 = bools(), bools()
+            assoc(l, ['One_Id'], a, ['Id'], m1, c1, False, 'one', 'other', r=r)
+            assoc(l, ['Other_Id'], a, ['Id'], m1, c1, False, 'other', 'one', r=r)
         elif shape == 'subsuper':
             s = mk_class(id_type=idt, prefix='S')
             r = rel()
